@@ -7,7 +7,8 @@ package main
 //
 // Supported subset: if / else-if / else, switch on an integer tag, return, :=, =, +=, -=, assignments
 // to fields of the receiver, integer arithmetic (+ - * / %), comparisons, && || !, len(x), x == "",
-// integer conversions, type assertions used as aliases, panic (the result becomes an Option).
+// integer conversions, type assertions used as aliases, argument-less getters on the receiver (an input),
+// panic (the result becomes an Option).
 // Calls in statement position (locks, metrics, logging) are dropped and listed in `droppedCalls`.
 // Go ints are translated to unbounded Int: overflow is outside this translation (trusted base).
 
@@ -25,6 +26,7 @@ var trList = []trSpec{
 	{"Codec", "security.go", "encryptOverhead", "encryptOverhead"},
 	{"Codec", "security.go", "encryptedLength", "encryptedLength"},
 	{"Codec", "label.go", "labelOverhead", "labelOverhead"},
+	{"Codec", "net.go", "Memberlist.encryptionVersion", "encryptionVersion"},
 	{"Acks", "awareness.go", "awareness.ApplyDelta", "applyDelta"},
 	{"Acks", "awareness.go", "awareness.ScaleTimeout", "scaleTimeout"},
 	{"Queue", "queue.go", "limitedBroadcast.Less", "bcastLess"},
@@ -114,6 +116,12 @@ func (t *translator) intExpr(e ast.Expr) string {
 		}
 		if (fn == "int" || fn == "time.Duration" || fn == "int32" || fn == "int64" || fn == "uint32") && len(x.Args) == 1 {
 			return t.intExpr(x.Args[0])
+		}
+		// a getter on the receiver or a parameter, called without arguments: one more input of the function
+		if se, ok := x.Fun.(*ast.SelectorExpr); ok && len(x.Args) == 0 {
+			if _, ok := se.X.(*ast.Ident); ok {
+				return t.sel(se)
+			}
 		}
 	}
 	return t.fail("integer expression %s", exprStr(t.fset, e))
